@@ -60,10 +60,10 @@ Lemma v_le_total a b : v_le a b = true \/ v_le b a = true.
 Proof. dval a; dval b; vred; auto using qle_bool_total, String.leb_total. Qed.
 Lemma v_le_trans a b c : v_le a b = true -> v_le b c = true -> v_le a c = true.
 Proof. dval a; dval b; dval c; vred; intros; try discriminate; try reflexivity; eauto using qle_bool_trans, sleb_trans. Qed.
-Lemma v_le_dir_total d a b : v_le_dir d a b = true \/ v_le_dir d b a = true.
-Proof. destruct d; dval a; dval b; vred; auto using qle_bool_total, String.leb_total. Qed.
-Lemma v_le_dir_trans d a b c : v_le_dir d a b = true -> v_le_dir d b c = true -> v_le_dir d a c = true.
-Proof. destruct d; dval a; dval b; dval c; vred; intros; try discriminate; try reflexivity; eauto using qle_bool_trans, sleb_trans. Qed.
+Lemma v_le_dir_total nf d a b : v_le_dir nf d a b = true \/ v_le_dir nf d b a = true.
+Proof. destruct nf; destruct d; dval a; dval b; vred; auto using qle_bool_total, String.leb_total. Qed.
+Lemma v_le_dir_trans nf d a b c : v_le_dir nf d a b = true -> v_le_dir nf d b c = true -> v_le_dir nf d a c = true.
+Proof. destruct nf; destruct d; dval a; dval b; dval c; vred; intros; try discriminate; try reflexivity; eauto using qle_bool_trans, sleb_trans. Qed.
 
 (* v_eqv is an equivalence compatible with v_le_dir *)
 Lemma v_eqv_refl a : v_eqv a a = true.
@@ -74,30 +74,30 @@ Lemma v_eqv_cong_l a b c : v_eqv a b = true -> v_eqv a c = v_eqv b c.
 Proof. dval a; dval b; dval c; vred; intros; try discriminate; try reflexivity; auto using qeq_eq_l, seqb_eq_l. Qed.
 Lemma v_eqv_cong_r a b c : v_eqv a b = true -> v_eqv c a = v_eqv c b.
 Proof. intros h. rewrite (v_eqv_sym c a), (v_eqv_sym c b). apply v_eqv_cong_l, h. Qed.
-Lemma v_le_dir_cong_l d a b c : v_eqv a b = true -> v_le_dir d a c = v_le_dir d b c.
-Proof. destruct d; dval a; dval b; dval c; vred; intros; try discriminate; try reflexivity; auto using qeq_le_l, qeq_le_r, seqb_le_l, seqb_le_r. Qed.
-Lemma v_le_dir_cong_r d a b c : v_eqv a b = true -> v_le_dir d c a = v_le_dir d c b.
-Proof. destruct d; dval a; dval b; dval c; vred; intros; try discriminate; try reflexivity; auto using qeq_le_l, qeq_le_r, seqb_le_l, seqb_le_r. Qed.
-Lemma v_le_dir_antisym d a b : v_eqv a b = false -> v_le_dir d a b = true -> v_le_dir d b a = true -> False.
-Proof. destruct d; dval a; dval b; vred; intros; try discriminate; eauto using q_antisym, q_antisym', s_antisym, s_antisym'. Qed.
+Lemma v_le_dir_cong_l nf d a b c : v_eqv a b = true -> v_le_dir nf d a c = v_le_dir nf d b c.
+Proof. destruct nf; destruct d; dval a; dval b; dval c; vred; intros; try discriminate; try reflexivity; auto using qeq_le_l, qeq_le_r, seqb_le_l, seqb_le_r. Qed.
+Lemma v_le_dir_cong_r nf d a b c : v_eqv a b = true -> v_le_dir nf d c a = v_le_dir nf d c b.
+Proof. destruct nf; destruct d; dval a; dval b; dval c; vred; intros; try discriminate; try reflexivity; auto using qeq_le_l, qeq_le_r, seqb_le_l, seqb_le_r. Qed.
+Lemma v_le_dir_antisym nf d a b : v_eqv a b = false -> v_le_dir nf d a b = true -> v_le_dir nf d b a = true -> False.
+Proof. destruct nf; destruct d; dval a; dval b; vred; intros; try discriminate; eauto using q_antisym, q_antisym', s_antisym, s_antisym'. Qed.
 
-Lemma row_le_total cs keys r1 r2 : row_le cs keys r1 r2 = true \/ row_le cs keys r2 r1 = true.
+Lemma row_le_total fl cs keys r1 r2 : row_le fl cs keys r1 r2 = true \/ row_le fl cs keys r2 r1 = true.
 Proof.
   induction keys as [|[c d] t IH]; simpl; [left; reflexivity|].
   rewrite (v_eqv_sym (get cs r2 c) (get cs r1 c)).
   destruct (v_eqv (get cs r1 c) (get cs r2 c)); [exact IH | apply v_le_dir_total].
 Qed.
-Lemma row_le_trans cs keys r1 r2 r3 : row_le cs keys r1 r2 = true -> row_le cs keys r2 r3 = true -> row_le cs keys r1 r3 = true.
+Lemma row_le_trans fl cs keys r1 r2 r3 : row_le fl cs keys r1 r2 = true -> row_le fl cs keys r2 r3 = true -> row_le fl cs keys r1 r3 = true.
 Proof.
   induction keys as [|[c d] t IH]; simpl; [reflexivity|].
   set (a := get cs r1 c). set (b := get cs r2 c). set (x := get cs r3 c).
   destruct (v_eqv a b) eqn:Eab; destruct (v_eqv b x) eqn:Ebx; intros H1 H2.
   - rewrite (v_eqv_cong_l a b x Eab), Ebx. auto.
-  - rewrite (v_eqv_cong_l a b x Eab), Ebx. rewrite (v_le_dir_cong_l d a b x Eab). exact H2.
-  - rewrite <- (v_eqv_cong_r b x a Ebx), Eab. rewrite <- (v_le_dir_cong_r d b x a Ebx). exact H1.
+  - rewrite (v_eqv_cong_l a b x Eab), Ebx. rewrite (v_le_dir_cong_l _ d a b x Eab). exact H2.
+  - rewrite <- (v_eqv_cong_r b x a Ebx), Eab. rewrite <- (v_le_dir_cong_r _ d b x a Ebx). exact H1.
   - destruct (v_eqv a x) eqn:Eax.
-    + exfalso. apply (v_le_dir_antisym d b x Ebx H2).
-      rewrite <- (v_le_dir_cong_l d a x b Eax). exact H1.
+    + exfalso. apply (v_le_dir_antisym _ d b x Ebx H2).
+      rewrite <- (v_le_dir_cong_l _ d a x b Eax). exact H1.
     + eapply v_le_dir_trans; eassumption.
 Qed.
 
@@ -205,42 +205,42 @@ Section SortFacts.
 End SortFacts.
 
 (* ---------- order_rows: sorted by the given columns with the given reversals; limit = the first `limit` rows of that order *)
-Lemma order_rows_sorted cs rev lim t :
-  StronglySorted (fun r1 r2 => row_le (cols t) (map (fun c => (c, mem c rev)) cs) r1 r2 = true) (rows (sem_order cs rev lim t)).
+Lemma order_rows_sorted fl cs rev lim t :
+  StronglySorted (fun r1 r2 => row_le fl (cols t) (map (fun c => (c, mem c rev)) cs) r1 r2 = true) (rows (sem_order fl cs rev lim t)).
 Proof.
   unfold sem_order; simpl.
-  assert (StronglySorted (fun r1 r2 => row_le (cols t) (map (fun c => (c, mem c rev)) cs) r1 r2 = true)
-            (stable_sort (row_le (cols t) (map (fun c => (c, mem c rev)) cs)) (rows t))) as S.
+  assert (StronglySorted (fun r1 r2 => row_le fl (cols t) (map (fun c => (c, mem c rev)) cs) r1 r2 = true)
+            (stable_sort (row_le fl (cols t) (map (fun c => (c, mem c rev)) cs)) (rows t))) as S.
   { apply stable_sort_sorted; [intros; apply row_le_total | intros; eapply row_le_trans; eassumption]. }
   destruct lim; [apply firstn_sorted, S | exact S].
 Qed.
-Lemma order_rows_is_permutation cs rev t : Permutation (rows (sem_order cs rev None t)) (rows t).
+Lemma order_rows_is_permutation fl cs rev t : Permutation (rows (sem_order fl cs rev None t)) (rows t).
 Proof. unfold sem_order; simpl. apply stable_sort_perm. Qed.
-Lemma order_rows_limit cs rev n t : rows (sem_order cs rev (Some n) t) = firstn n (rows (sem_order cs rev None t)).
+Lemma order_rows_limit fl cs rev n t : rows (sem_order fl cs rev (Some n) t) = firstn n (rows (sem_order fl cs rev None t)).
 Proof. reflexivity. Qed.
-Lemma order_rows_keeps_columns cs rev lim t : cols (sem_order cs rev lim t) = cols t.
+Lemma order_rows_keeps_columns fl cs rev lim t : cols (sem_order fl cs rev lim t) = cols t.
 Proof. reflexivity. Qed.
 
 (* with a total order on the data the ordered result does not depend on the input row order *)
-Definition total_on (cs : list string) (keys : list (string * bool)) (rs : list (list val)) : Prop :=
-  forall r1 r2, In r1 rs -> In r2 rs -> row_le cs keys r1 r2 = true -> row_le cs keys r2 r1 = true -> r1 = r2.
-Lemma order_rows_input_order_irrelevant cs rev lim t t' :
+Definition total_on (fl : flavor) (cs : list string) (keys : list (string * bool)) (rs : list (list val)) : Prop :=
+  forall r1 r2, In r1 rs -> In r2 rs -> row_le fl cs keys r1 r2 = true -> row_le fl cs keys r2 r1 = true -> r1 = r2.
+Lemma order_rows_input_order_irrelevant fl cs rev lim t t' :
   cols t = cols t' -> Permutation (rows t) (rows t') ->
-  total_on (cols t) (map (fun c => (c, mem c rev)) cs) (rows t) ->
-  sem_order cs rev lim t = sem_order cs rev lim t'.
+  total_on fl (cols t) (map (fun c => (c, mem c rev)) cs) (rows t) ->
+  sem_order fl cs rev lim t = sem_order fl cs rev lim t'.
 Proof.
   intros C P T. unfold sem_order. rewrite <- C.
-  rewrite (stable_sort_perm_invariant (row_le (cols t) (map (fun c => (c, mem c rev)) cs))
-             (row_le_total _ _) (row_le_trans _ _) (rows t) (rows t') P T).
+  rewrite (stable_sort_perm_invariant (row_le fl (cols t) (map (fun c => (c, mem c rev)) cs))
+             (row_le_total _ _ _) (row_le_trans _ _ _) (rows t) (rows t') P T).
   reflexivity.
 Qed.
 
 (* ---------- row-order independence of the row-wise steps (results as multisets) *)
-Lemma extend_perm ops t t' : cols t = cols t' -> Permutation (rows t) (rows t') ->
-  cols (sem_extend ops t) = cols (sem_extend ops t') /\ Permutation (rows (sem_extend ops t)) (rows (sem_extend ops t')).
+Lemma extend_perm fl ops t t' : cols t = cols t' -> Permutation (rows t) (rows t') ->
+  cols (sem_extend fl ops t) = cols (sem_extend fl ops t') /\ Permutation (rows (sem_extend fl ops t)) (rows (sem_extend fl ops t')).
 Proof. intros C P. unfold sem_extend; simpl. rewrite <- C. split; [reflexivity | apply Permutation_map, P]. Qed.
-Lemma select_rows_perm e t t' : cols t = cols t' -> Permutation (rows t) (rows t') ->
-  Permutation (rows (sem_select_rows e t)) (rows (sem_select_rows e t')).
+Lemma select_rows_perm fl e t t' : cols t = cols t' -> Permutation (rows t) (rows t') ->
+  Permutation (rows (sem_select_rows fl e t)) (rows (sem_select_rows fl e t')).
 Proof. intros C P. unfold sem_select_rows; simpl. rewrite <- C. apply perm_filter, P. Qed.
 Lemma select_cols_perm cs t t' : cols t = cols t' -> Permutation (rows t) (rows t') ->
   Permutation (rows (sem_select_cols cs t)) (rows (sem_select_cols cs t')).
@@ -255,9 +255,9 @@ Proof.
   intros Ca Cb Pa Pb. unfold sem_concat. rewrite <- Ca, <- Cb.
   destruct idc; simpl; apply Permutation_app; repeat apply Permutation_map; assumption.
 Qed.
-Lemma join_perm nm on jt a a' b b' : cols a = cols a' -> cols b = cols b' ->
+Lemma join_perm nm on_a on_b jt a a' b b' : cols a = cols a' -> cols b = cols b' ->
   Permutation (rows a) (rows a') -> Permutation (rows b) (rows b') ->
-  Permutation (rows (sem_join nm on jt a b)) (rows (sem_join nm on jt a' b')).
+  Permutation (rows (sem_join nm on_a on_b jt a b)) (rows (sem_join nm on_a on_b jt a' b')).
 Proof.
   intros Ca Cb Pa Pb. unfold sem_join. rewrite <- Ca, <- Cb. simpl.
   apply Permutation_app; [|apply Permutation_app].
@@ -271,10 +271,10 @@ Proof.
 Qed.
 
 (* dropping an order_rows WITHOUT limit in front of a row-wise step changes nothing but the row order (C06) *)
-Lemma order_then_select_rows cs rev e t :
-  Permutation (rows (sem_select_rows e (sem_order cs rev None t))) (rows (sem_select_rows e t)).
+Lemma order_then_select_rows fl cs rev e t :
+  Permutation (rows (sem_select_rows fl e (sem_order fl cs rev None t))) (rows (sem_select_rows fl e t)).
 Proof. apply select_rows_perm; [reflexivity | apply order_rows_is_permutation]. Qed.
-Lemma order_then_extend cs rev ops t :
-  Permutation (rows (sem_extend ops (sem_order cs rev None t))) (rows (sem_extend ops t)).
+Lemma order_then_extend fl cs rev ops t :
+  Permutation (rows (sem_extend fl ops (sem_order fl cs rev None t))) (rows (sem_extend fl ops t)).
 Proof. apply extend_perm; [reflexivity | apply order_rows_is_permutation]. Qed.
 
